@@ -25,14 +25,35 @@ Definition qual_eqb (a b : qual) : bool :=
   | _, _ => false
   end.
 
-(** static type, as the checker computes it ([cast_binary_op] is the dumped table) *)
+(** the language's typing rule for [l op r], written by hand: strings only concatenate and compare;
+    comparisons, AND, OR and MOD of numbers are INTEGERs; + - * / of numbers have the wider operand
+    type (INTEGER < LONG < SINGLE < DOUBLE). [TableRule.cast_binary_op_is_the_rule] shows that the table
+    dumped from the checker's own code on every run IS this rule. *)
+Definition is_string_q (q : qual) : bool := match q with QString => true | _ => false end.
+Definition rank (q : qual) : nat := match q with QInteger => 0 | QLong => 1 | QSingle => 2 | QDouble => 3 | QString => 4 end.
+Definition wider (a b : qual) : qual := if Nat.leb (rank a) (rank b) then b else a.
+Definition is_comparison (o : bop) : bool :=
+  match o with Less | LessOrEqual | Equal | GreaterOrEqual | Greater | NotEqual => true | _ => false end.
+
+Definition spec_binary_op (l r : qual) (op : bop) : option qual :=
+  match is_string_q l, is_string_q r with
+  | true, true => if is_comparison op then Some QInteger else match op with Plus => Some QString | _ => None end
+  | false, false =>
+      match op with
+      | Plus | Minus | Multiply | Divide => Some (wider l r)
+      | _ => Some QInteger
+      end
+  | _, _ => None
+  end.
+
+(** static type: the language rule *)
 Fixpoint etype (e : expr) : option qual :=
   match e with
   | ELit _ v => Some (tag v)
   | EVar _ n => Some (snd n)
   | EBin _ op l r =>
       match etype l, etype r with
-      | Some a, Some b => cast_binary_op a b op
+      | Some a, Some b => spec_binary_op a b op
       | _, _ => None
       end
   | EUn _ _ c => match etype c with Some QString => None | t => t end
